@@ -95,6 +95,20 @@ def unit_jobs(engine, prop, tier, quick_s=20, thorough_s=240, geoms=("th2", "th1
     return js
 
 
+def special_jobs(engine, prop, tier, quick_s=25, thorough_s=300, geoms=("th2", "th1", "th8", "16k", "16k_th2"), quick_geoms=("th2",)):
+    if tier == "quick":
+        js = [job(engine, prop, "default", "vdev", shards=9, budget_s=quick_s),
+              job(engine, prop, "default", "vrel", shards=4, budget_s=quick_s)]
+        for g in quick_geoms:
+            js.append(job(engine, prop, g, "vdev", shards=3, budget_s=quick_s))
+        return js
+    js = [job(engine, prop, "default", "vdev", shards=8, budget_s=thorough_s, args=["--thorough"]),
+          job(engine, prop, "default", "vrel", shards=3, budget_s=thorough_s, args=["--thorough"])]
+    for g in geoms:
+        js.append(job(engine, prop, g, "vdev", shards=1, budget_s=thorough_s, args=["--thorough"]))
+    return js
+
+
 def classes_nontrivial(m):
     return max(m["extra"].get("x_distinct_classes", [0]))
 
@@ -120,6 +134,26 @@ plan("C12", jobs=lambda tier: unit_jobs("lower", "C12", tier), level="exploratio
            "pattern; success must mark exactly the returned block. distinct_nontrivial = distinct (order, found, row distance from hint) "
            "outcomes in one shard (maximum over shards)"),
      technique="runtime differential monitor: in-tree search vs reference scan of installed patterns")
+
+
+plan("C06", jobs=lambda tier: special_jobs("init", "C06", tier, quick_s=60, thorough_s=600), level="exploration", min_nontrivial=500,
+     rule=("for every frame count of the grid (default geometry: every count 1..4*TREE_FRAMES+HUGE_FRAMES+65; other geometries: +-65 around "
+           "every huge-frame/tree boundary): FreeAll closed-form statistics + full model comparison + targeted allocation of every frame "
+           "(frames beyond rejected) + exhaustion at order 0 + exhaustion with descending orders; AllocAll: nothing free, every whole huge "
+           "frame / remaining base frame freeable exactly once, then identical to FreeAll. distinct_nontrivial = distinct (geometry, frame count) pairs completed"),
+     technique="runtime monitor: closed-form + reference-model oracle over an enumerated frame-count grid")
+plan("C07", jobs=lambda tier: special_jobs("handoff", "C07", tier), level="exploration", min_nontrivial=200, rule=SEQ_RULE +
+     "; here each evaluation is one hand-off (byte copies of the three buffers, Init::None) followed by an identical continuation on original and copy, comparing every result and the full query set",
+     technique="runtime differential monitor: original vs Init::None copy in lock-step")
+plan("C08", jobs=lambda tier: special_jobs("invalid", "C08", tier), level="exploration", min_nontrivial=200, rule=SEQ_RULE +
+     "; here the histories end in the complete grid of invalid/boundary requests (orders 0..TREE_ORDER+3 x boundary frames x get/get_at/put, classes 0..7), plus buffer-construction cases and zone-offset probes",
+     technique="runtime monitor: enumerated invalid-argument grid with before/after state comparison")
+plan("C11", jobs=lambda tier: special_jobs("single", "C11", tier), level="exploration", min_nontrivial=200, rule=SEQ_RULE +
+     "; here every history uses one class with one slot and base-order requests only: exhaust, free a subset (through the slot or without; boundary rounds free 1-3 frames without slot into the slot's reserved tree), allocate until Memory",
+     technique="runtime monitor: reference-model oracle on single-slot exhaustion histories")
+plan("C17", jobs=lambda tier: special_jobs("wrappers", "C17", tier), level="exploration", min_nontrivial=200, rule=SEQ_RULE +
+     "; here ZoneAlloc runs in lock-step with an identical inner allocator, and NvmAlloc zones (real memory at tree-aligned addresses) are created, exhausted (every frame checked against the metadata/header address range), driven, dropped and recovered",
+     technique="runtime differential monitor (zone wrapper) + address-range oracle and recover/compare (persistent wrapper)")
 
 
 # ------------------------------------------------------------------------------------------------
